@@ -247,6 +247,16 @@ def oracle(case, obs):
             want = [st for _n, st in processed]
             if got != want:
                 out.append(("%s shows step marks %s, processed steps have statuses %s" % (name, got[:8], want[:8]), "progress-steps"))
+    # the problem lists of the step-progress formatters: every processed step that failed or ended in an error-class status is
+    # listed exactly once (FAILURE / ERROR), and nothing else is
+    want_list = sorted((("FAILURE" if st == "failed" else "ERROR"), n) for n, st in processed
+                       if st in ("failed", "error", "hook_error", "cleanup_error", "undefined", "pending"))
+    for name in ("progress2", "progress3"):
+        if name in obs["text"]:
+            listed = sorted(re.findall(r"^(FAILURE|ERROR) in step '(\w+(?: x)? \d+)'", obs["text"][name], re.M))
+            if listed != want_list:
+                out.append(("%s lists problem steps %s, the processed steps that did not pass are %s" % (name, listed[:8], want_list[:8]),
+                            "progress-problem-list"))
     if "progress" in obs.get("marks", {}):
         shown_scen = [e[1] for e in obs["fmt"] if e[0] == "scenario"]
         want = [scen[n]["status"] for n in shown_scen if n in scen]
